@@ -481,8 +481,6 @@ def check(prog, rep):
     SOURCES = ("get_variables", "get_all_variables", "_get_variables_iterative")
     editors = []
     for f_ in prog.functions.values():
-        if f_.name in SOURCES:
-            continue
         for n_ in walk_local(f_.node):
             nm_ = None
             if isinstance(n_, ast.AugAssign) and isinstance(n_.target, ast.Name) and isinstance(n_.op, (ast.BitOr, ast.BitAnd, ast.Sub, ast.BitXor)):
